@@ -32,6 +32,9 @@ EXPLANATION = (
     'zero). Decides consistency by '
     'construction and error-class choice; the directory state machine '
     '(contents of the BuildDirs sets) is not decided.')
+# round 3/4 additions
+EXPLANATION += (
+    " R4.9 = R9.6. R4.10: a 'removed' verdict of the directory scan is memoised in the set the query consults. R4.11: removed/maybe-removed knowledge is dropped only under a dominating 'not reserved' fact (the class's crucial invariant). R4.12: a directory whose listing raised FileNotFoundError is answered 'removed'.")
 
 PROBES = ('os.path.isfile', 'os.path.isdir', 'os.path.exists',
           'os.path.lexists')
